@@ -261,23 +261,19 @@ theorem remove_absent (keyOf codeOf : Nat → Nat) (t : Table) (h : Inv keyOf co
   subst hnone
   exact ⟨rfl, rfl, rfl⟩
 
-/-- Removing a present key hands back exactly that record, keeps the invariant, and leaves all
-other records in place (whether or not the table could be shrunk). -/
-theorem remove_present (keyOf codeOf : Nat → Nat) (t : Table) (h : Inv keyOf codeOf t) (key r0 : Nat) (ok : Bool)
-    (hr : r0 ∈ liveRecs t) (hk : keyOf r0 = key) :
-    let res := remove keyOf t key (codeOf key) ok
-    res.2.2.1 = some r0 ∧ Inv keyOf codeOf res.1 ∧
-    (∀ r, r ∈ liveRecs res.1 ↔ r ∈ liveRecs t ∧ r ≠ r0) ∧ res.1.count + 1 = t.count ∧
-    (res.2.1 = .success ∨ (ok = false ∧ res.2.1 = .noMem)) := by
-  intro res
+/-- `zix_hash_erase` at ANY slot `i` that holds a record (not necessarily one that `find` just
+returned): hands back exactly that record, keeps the invariant, and leaves all other records in
+place (whether or not the table could be shrunk).  Shared core of `remove_present` and
+`eraseAt_record`. -/
+theorem erase_live (keyOf codeOf : Nat → Nat) (t : Table) (h : Inv keyOf codeOf t) (i c r0 : Nat) (ok : Bool)
+    (hi : HoldsAt t i c r0) :
+    (erase keyOf t i ok).2.2.1 = some r0 ∧ Inv keyOf codeOf (erase keyOf t i ok).1 ∧
+    (∀ r, r ∈ liveRecs (erase keyOf t i ok).1 ↔ r ∈ liveRecs t ∧ r ≠ r0) ∧
+    (erase keyOf t i ok).1.count + 1 = t.count ∧
+    ((erase keyOf t i ok).2.1 = .success ∨ (ok = false ∧ (erase keyOf t i ok).2.1 = .noMem)) := by
   have hsinv := h.sinv
   have hcnt : t.count = (liveList t.slots).length := by rw [← liveRecs_eq]; exact h.countEq
-  obtain ⟨i, c, hi⟩ := mem_liveRecs.1 hr
-  have hc : c = codeOf key := by rw [h.codes i c r0 hi, hk]
-  subst hc
   have hi' := holdsAt_iff.1 hi
-  have hfind := (find_some_iff keyOf codeOf t h key i).2 ⟨r0, hi, hk⟩
-  obtain ⟨e1, e2, e3⟩ := remove_of_find_some keyOf t key (codeOf key) i ok hfind
   have hrec : recordAt t i = some r0 := by unfold recordAt; rw [hi']
   have hs1 : SInv keyOf codeOf (t.slots.set i .tomb) := hsinv.set_tomb i
   have hc1 : (liveList (t.slots.set i .tomb)).length + 1 = t.count := by
@@ -289,13 +285,7 @@ theorem remove_present (keyOf codeOf : Nat → Nat) (t : Table) (h : Inv keyOf c
   have h4 := h.size4
   have hld := h.load
   have hp := h.pow2
-  show (remove keyOf t key (codeOf key) ok).2.2.1 = some r0 ∧
-    Inv keyOf codeOf (remove keyOf t key (codeOf key) ok).1 ∧
-    (∀ r, r ∈ liveRecs (remove keyOf t key (codeOf key) ok).1 ↔ r ∈ liveRecs t ∧ r ≠ r0) ∧
-    (remove keyOf t key (codeOf key) ok).1.count + 1 = t.count ∧
-    ((remove keyOf t key (codeOf key) ok).2.1 = .success ∨
-      (ok = false ∧ (remove keyOf t key (codeOf key) ok).2.1 = .noMem))
-  rw [e1, e2, e3, erase_eq]
+  rw [erase_eq]
   -- the tombstoned table without shrinking
   have hinv1 : Inv keyOf codeOf { slots := t.slots.set i .tomb, count := t.count - 1 } := by
     obtain ⟨k, hk⟩ := hp
@@ -330,6 +320,83 @@ theorem remove_present (keyOf codeOf : Nat → Nat) (t : Table) (h : Inv keyOf c
         rw [r4, hm1]
   · rw [if_neg hg]
     exact ⟨hrec, hinv1, hmem1, by show t.count - 1 + 1 = t.count; omega, Or.inl rfl⟩
+
+/-- Removing a present key hands back exactly that record, keeps the invariant, and leaves all
+other records in place (whether or not the table could be shrunk). -/
+theorem remove_present (keyOf codeOf : Nat → Nat) (t : Table) (h : Inv keyOf codeOf t) (key r0 : Nat) (ok : Bool)
+    (hr : r0 ∈ liveRecs t) (hk : keyOf r0 = key) :
+    let res := remove keyOf t key (codeOf key) ok
+    res.2.2.1 = some r0 ∧ Inv keyOf codeOf res.1 ∧
+    (∀ r, r ∈ liveRecs res.1 ↔ r ∈ liveRecs t ∧ r ≠ r0) ∧ res.1.count + 1 = t.count ∧
+    (res.2.1 = .success ∨ (ok = false ∧ res.2.1 = .noMem)) := by
+  intro res
+  obtain ⟨i, c, hi⟩ := mem_liveRecs.1 hr
+  have hc : c = codeOf key := by rw [h.codes i c r0 hi, hk]
+  subst hc
+  have hfind := (find_some_iff keyOf codeOf t h key i).2 ⟨r0, hi, hk⟩
+  obtain ⟨e1, e2, e3⟩ := remove_of_find_some keyOf t key (codeOf key) i ok hfind
+  show (remove keyOf t key (codeOf key) ok).2.2.1 = some r0 ∧
+    Inv keyOf codeOf (remove keyOf t key (codeOf key) ok).1 ∧
+    (∀ r, r ∈ liveRecs (remove keyOf t key (codeOf key) ok).1 ↔ r ∈ liveRecs t ∧ r ≠ r0) ∧
+    (remove keyOf t key (codeOf key) ok).1.count + 1 = t.count ∧
+    ((remove keyOf t key (codeOf key) ok).2.1 = .success ∨
+      (ok = false ∧ (remove keyOf t key (codeOf key) ok).2.1 = .noMem))
+  rw [e1, e2, e3]
+  exact erase_live keyOf codeOf t h i _ r0 ok hi
+
+/-! ## erase at an arbitrary iterator value -/
+
+/-- `zix_hash_erase(i)` at a position that holds no record — the end iterator, a tombstone, an
+empty slot, or any out-of-range value — is refused with BAD_ARG: the table is untouched, `removed`
+is NULL and no user callback runs.  No invariant is needed. -/
+theorem eraseAt_not_record (keyOf : Nat → Nat) (t : Table) (i : Nat) (ok : Bool)
+    (hnone : recordAt t i = none) :
+    eraseAt keyOf t i ok = (t, .badArg, none, []) := by
+  unfold eraseAt; rw [hnone]
+
+/-- No position at or beyond the end iterator holds a record (in any table). -/
+theorem recordAt_ge (t : Table) (i : Nat) (hi : t.n ≤ i) : recordAt t i = none := by
+  unfold recordAt
+  rw [List.getD_eq_getElem?_getD, List.getElem?_eq_none hi]
+  rfl
+
+/-- Erasing at the end iterator (`zix_hash_end`, index `t.n`) is refused with BAD_ARG and nothing
+changes — in every table, no hypothesis needed. -/
+theorem eraseAt_end (keyOf : Nat → Nat) (t : Table) (ok : Bool) :
+    eraseAt keyOf t t.n ok = (t, .badArg, none, []) :=
+  eraseAt_not_record keyOf t t.n ok (recordAt_ge t t.n (Nat.le_refl _))
+
+/-- A position holds a record exactly when its slot is live. -/
+theorem recordAt_some_iff {t : Table} {i r : Nat} : recordAt t i = some r ↔ ∃ c, HoldsAt t i c r := by
+  unfold recordAt
+  constructor
+  · intro hrec
+    cases hs : t.slots.getD i .empty with
+    | empty => rw [hs] at hrec; cases hrec
+    | tomb => rw [hs] at hrec; cases hrec
+    | live c r' =>
+      rw [hs] at hrec
+      cases hrec
+      exact ⟨c, holdsAt_iff.2 hs⟩
+  · rintro ⟨c, hc⟩
+    rw [holdsAt_iff.1 hc]
+
+/-- Erasing at ANY position that holds a record hands back exactly that record, keeps the
+invariant, and leaves all other records in place (whether or not the table could be shrunk): the
+conclusion of `remove_present`, without going through `find`. -/
+theorem eraseAt_record (keyOf codeOf : Nat → Nat) (t : Table) (h : Inv keyOf codeOf t) (i r0 : Nat) (ok : Bool)
+    (hrec : recordAt t i = some r0) :
+    let res := eraseAt keyOf t i ok
+    res.2.2.1 = some r0 ∧ Inv keyOf codeOf res.1 ∧
+    (∀ r, r ∈ liveRecs res.1 ↔ r ∈ liveRecs t ∧ r ≠ r0) ∧ res.1.count + 1 = t.count ∧
+    (res.2.1 = .success ∨ (ok = false ∧ res.2.1 = .noMem)) := by
+  intro res
+  obtain ⟨c, hi⟩ := recordAt_some_iff.1 hrec
+  have e : res = erase keyOf t i ok := by
+    show eraseAt keyOf t i ok = _
+    unfold eraseAt; rw [hrec]
+  rw [e]
+  exact erase_live keyOf codeOf t h i c r0 ok hi
 
 /-! ## size and iteration -/
 
@@ -371,6 +438,12 @@ theorem insert_callbacks (keyOf : Nat → Nat) (t : Table) (rec code : Nat) (ok 
 /-! ## non-vacuity: a constant hash function; a table whose every non-live slot is a tombstone -/
 example : (find (fun r => r) ⟨[.live 7 1, .tomb, .live 7 2, .tomb], 2⟩ 9 7).1 = none := by decide
 example : (insert (fun r => r) (insert (fun r => r) new 1 7 true).1 2 7 true).2.1 = .success := by decide
+/-! erase at a live slot, at a tombstone, at an empty slot, at the end iterator and beyond it -/
+example : (eraseAt (fun r => r) ⟨[.live 7 1, .tomb, .live 7 2, .empty], 2⟩ 2 true).2 = (.success, some 2, []) := by decide
+example : (eraseAt (fun r => r) ⟨[.live 7 1, .tomb, .live 7 2, .empty], 2⟩ 1 true).2 = (.badArg, none, []) := by decide
+example : (eraseAt (fun r => r) ⟨[.live 7 1, .tomb, .live 7 2, .empty], 2⟩ 3 true).2 = (.badArg, none, []) := by decide
+example : (eraseAt (fun r => r) ⟨[.live 7 1, .tomb, .live 7 2, .empty], 2⟩ 4 true).2 = (.badArg, none, []) := by decide
+example : (eraseAt (fun r => r) ⟨[.live 7 1, .tomb, .live 7 2, .empty], 2⟩ 9 true).2 = (.badArg, none, []) := by decide
 
 /-! ## counterexample to the inductiveness of the ORIGINAL invariant (without `pow2`) -/
 namespace Counterexample
